@@ -166,21 +166,41 @@ def run(ctx, known, built):
             c["what"] = "model transform (Coq primitive floats) differs from ContourPoint::transform"
             c["demand"] = "x' = xScale*x + yxScale*y + xOffset, y' = xyScale*x + yScale*y + yOffset (IEEE, this evaluation order)"
         ctx.disagreements.append(c)
+    # A contour's path that differs from spec_path may still be an outline the specification allows
+    # (another on-curve start point): evaluate the property's predicate (Coq: outline_ok) on the
+    # implementation's path for a sample of the differing cases, smallest first.
+    cand = [c for c in spec_diffs if c["kind"] == "contour" and c["implementation_fingerprint"] not in "-!"
+            and c["specification_fingerprint"] != "-"]
+    step = max(1, len(cand) // 20)
+    sample = cand[:40] + cand[40::step][:20]
+    verdicts = judge(ctx, sample)
     for c in spec_diffs:
         if c["kind"] == "contour":
             e = c["implementation_fingerprint"]
             m = c["specification_fingerprint"]
+            c["demand"] = "to_kurbo(parse(contour)) = Ok(path), path one of the outlines the specification allows (C20_path_is_outline)"
             if e == "!":
-                c["what"] = "parse_raw changed the contour / panicked"
-            elif e == "-" or m == "-":
-                c["what"] = "accepted by the parser iff legal fails (C11)" if e == "-" else "parser accepted an illegal contour"
+                continue      # reported by the harness oracle
+            if e == "-" or m == "-":
+                c["what"] = ("a legal contour was rejected by the parser" if e == "-" else
+                             "the parser accepted an illegal contour") + " (accepts <-> legal is C11; C20's theorem assumes it)"
+                ctx.disagreements.append(c)
+                continue
+            v = verdicts.get(id(c))
+            if v is None:
+                continue      # not sampled; its model difference is already a disagreement
+            c["implementation_path_bits"] = v[1]
+            if v[0]:
+                c["what"] = "path differs from spec_path but is an allowed outline (different start point)"
+                if not any(d is c for d in model_diffs):
+                    ctx.disagreements.append(c)
             else:
-                c["what"] = "path of the accepted contour differs from the specification's outline (spec_path)"
-            c["demand"] = "to_kurbo(parse(contour)) = Ok(spec_path contour) for every accepted contour"
+                c["what"] = "path of the accepted contour is not an outline the specification allows"
+                ctx.violations.append(c)
         else:
             c["what"] = "kurbo::Affine * Point after AffineTransform -> Affine -> AffineTransform -> Affine differs from the model"
             c["demand"] = "same value as ContourPoint::transform; conversions are the identity"
-        ctx.violations.append(c)
+            ctx.violations.append(c)
     # by the theorems a model difference on a transform or on an accepted contour is a violating input as well
     for c in model_diffs:
         if c["kind"] == "transform":
@@ -216,6 +236,45 @@ def run(ctx, known, built):
         "traces_validated_against_impl": total,
     })
     ctx.samples += [{"contour": pretty10(cases[i]), "implementation_fingerprint": rs[i]} for i in (1, 2, 3) if i < len(cases)]
+
+
+def contour_term(c):
+    if c.get("coords") == "exh":
+        return ('(with_coords_exh 0%%uint63 (of_digits5 "%s"))' % c["digits5"], "contour exh %s" % c["digits5"])
+    return ('(rand_contour %d%%uint63 %d%%uint63 (of_digits "%s"))' % (c["key"], c["index"], c["digits"]),
+            "contour rand %d %d %s" % (c["key"], c["index"], c["digits"]))
+
+
+def judge(ctx, sample):
+    """{id(case): (allowed outline?, implementation path bits)} via the harness replay and Coq's outline_ok"""
+    from driver import sh, coq_values
+    if not sample:
+        return {}
+    vf = os.path.join(ctx.scratch, "judge.v")
+    keep = []
+    with open(vf, "w") as f:
+        f.write(HDR)
+        for i, c in enumerate(sample):
+            term, line = contour_term(c)
+            rp = os.path.join(ctx.scratch, "judge_%d.txt" % i)
+            open(rp, "w").write(line + "\n")
+            rc, o = sh([ctx.harness, "c20", "--replay", rp, "--out", ctx.scratch], timeout=120)
+            bits = [ln[len("parsed_bits: "):] for ln in o.split("\n") if ln.startswith("parsed_bits: ")]
+            if not bits:
+                continue
+            code, els = json.loads(bits[0])
+            g = "(%d, [%s])%%Z" % (code, ";".join("(%d, [%s])" % (t, ";".join(str(b) for b in fs)) for t, fs in els))
+            f.write("Eval vm_compute in outline_ok %s %s.\n" % (term, g))
+            keep.append((c, bits[0]))
+    rc, o = ctx.coqc(vf, timeout=600)
+    vals = coq_values(o) if rc == 0 else []
+    res = {}
+    if len(vals) != len(keep):
+        ctx.disagreements.append({"what": "judging the differing paths failed", "output": o[-600:]})
+        return res
+    for (c, b), v in zip(keep, vals):
+        res[id(c)] = (v.strip() == "true", b)
+    return res
 
 
 def detail(ctx, c):
